@@ -3,15 +3,19 @@
    record carries the call, the result class, and the abstract post-state the
    specification computed: committed rows, committed index (reverse map), the row map of
    every open view, the result set of every filter tree in every view and the value
-   sequence of every ordered walk.  Commit is the atomic (masked) step; with Nest = TRUE a
-   behaviour may contain one NestedCommit(t1, t2): the as-written interleaving
+   sequence of every ordered walk.  Commit is the atomic (masked) step; with Nest = "tx"
+   ("set") a behaviour may contain one NestedCommit(t1, t2) (NestedSet(t1, k, v)): the
+   as-written interleaving
        KVCommit(t1) ; KVCommit(t2) ; [Notify(t2)] ; Flush(t2) ; [Notify(t1)] ; Flush(t1)
    (Window_CommitFlush), which the harness reproduces by committing t2 from a kv change
    handler that runs inside t1's commit.  *)
 EXTENDS GorpIndex, Json
-CONSTANTS Depth, Nest
-VARIABLES hist, nested
-gvars == <<vars, hist, nested>>
+CONSTANTS Depth, Nest,
+          MaxDirect,  \* at most this many direct / replicated writes per behaviour (the
+                      \* simulator picks successors uniformly; this keeps behaviours tx-heavy)
+          MaxTxOps    \* at most this many staged calls per transaction before it ends
+VARIABLES hist, nested, emitted, nd, nw
+gvars == <<vars, hist, nested, emitted, nd, nw>>
 
 \* ordered queries: direction x cursor x limit
 OQ == <<
@@ -28,34 +32,64 @@ OQok == {i \in DOMAIN OQ : OQ[i].cur = "none" \/ OQ[i].cur \in Val}
 ASSUME PrintT(<<"TREES", ToJson(Trees)>>)
 ASSUME PrintT(<<"OQS", ToJson(OQ)>>)
 
+\* a step record is light (the call and the post-state); the expectations are expanded
+\* from the recorded state when the behaviour is emitted
 Rec(a, u, k, v, v2) ==
-  [a |-> a, u |-> u, k |-> k, v |-> v, v2 |-> v2, out |-> out',
-   kv |-> kv', idx |-> idx'.r,
-   views |-> [w \in Views' |-> ViewOf(w)'],
-   q |-> [w \in Views' |-> [i \in 1..NT |-> ScanQuery(Trees[i], w)']],
-   ord |-> [i \in DOMAIN OQ |-> IF i \in OQok THEN WalkVals(OQ[i])' ELSE <<>>]]
-Log(a, u, k, v, v2) == hist' = Append(hist, Rec(a, u, k, v, v2)) /\ UNCHANGED nested
+  [a |-> a, u |-> u, k |-> k, v |-> v, v2 |-> v2,
+   out |-> IF a = "upd" THEN UpdOut(u, k) ELSE "ok",
+   S |-> Cur']
+Expand(r) ==
+  [a |-> r.a, u |-> r.u, k |-> r.k, v |-> r.v, v2 |-> r.v2, out |-> r.out,
+   kv |-> r.S.kv, idx |-> r.S.idx.r,
+   views |-> [w \in ViewsS(r.S) |-> ViewOfS(r.S, w)],
+   q |-> [w \in ViewsS(r.S) |-> [i \in 1..NT |-> ScanQueryS(Trees[i], r.S, w)]],
+   ord |-> [i \in DOMAIN OQ |-> IF i \in OQok THEN WalkValsS(r.S, OQ[i]) ELSE <<>>]]
+Log(a, u, k, v, v2) ==
+  /\ hist' = Append(hist, Rec(a, u, k, v, v2))
+  /\ IF u = DB /\ a # "populate" THEN nd < MaxDirect /\ nd' = nd + 1 ELSE nd' = nd
+  /\ IF u # DB /\ a \in {"set", "upd", "del", "updeq", "deleq"}
+     THEN nw[u] < MaxTxOps /\ nw' = [nw EXCEPT ![u] = @ + 1]
+     ELSE IF a = "open" THEN nw' = [nw EXCEPT ![u] = 0] ELSE nw' = nw
+  /\ UNCHANGED <<nested, emitted>>
 
 \* as-written interleaving of two commits (see header)
 NestedCommit(t1, t2) ==
-  /\ Nest /\ ~nested /\ t1 # t2
+  /\ Nest = "tx" /\ ~nested /\ t1 # t2
   /\ tx[t1].st = "open" /\ tx[t2].st = "open"
   /\ kv' = KvOver(KvOver(kv, tx[t1].w), tx[t2].w)
   /\ idx' = IdxApply(IdxApply(idx, tx[t2].d), tx[t1].d)
   /\ tx' = [tx EXCEPT ![t1] = [FreshTx EXCEPT !.st = "done"], ![t2] = [FreshTx EXCEPT !.st = "done"]]
-  /\ out' = "commit"
   /\ nested' = TRUE
-  /\ UNCHANGED phase
+  /\ UNCHANGED <<phase, emitted, nd, nw>>
   /\ hist' = Append(hist, Rec("nest", t1, "-", "-", t2))
 
-GNext ==
+\* the same window with a direct (non-tx) write to a row inside it
+NestedSet(t1, k, v) ==
+  /\ Nest = "set" /\ ~nested
+  /\ tx[t1].st = "open" /\ tx[t1].w[k] # Keep      \* only rows the committing tx wrote
+  /\ kv' = KvOver(KvOver(kv, tx[t1].w), One(k, v))
+  /\ idx' = IdxApply(IdxPut(idx, k, v), tx[t1].d)
+  /\ tx' = [tx EXCEPT ![t1] = [FreshTx EXCEPT !.st = "done"]]
+  /\ nested' = TRUE
+  /\ UNCHANGED <<phase, emitted, nd, nw>>
+  /\ hist' = Append(hist, Rec("nestset", t1, k, v, "-"))
+
+\* emission is an action (evaluated once, for the state the simulator actually chose)
+EmitStep == /\ Len(hist) = Depth /\ ~emitted
+          /\ PrintT(<<"HIST", ToJson([i \in DOMAIN hist |-> Expand(hist[i])])>>)
+          /\ emitted' = TRUE
+          /\ UNCHANGED <<vars, hist, nested, nd, nw>>
+Step ==
   /\ Len(hist) < Depth
   /\ \/ Populate /\ Log("populate", DB, "-", "-", "-")
      \/ \E t \in Tx :
           \/ Open(t) /\ Log("open", t, "-", "-", "-")
-          \/ Commit(t) /\ Log("commit", t, "-", "-", "-")
+          \/ /\ Commit(t) /\ Log("commit", t, "-", "-", "-")
+             \* in a Nest behaviour the first commit made while another tx is open is a nested one
+             /\ (Nest = "tx" /\ ~nested) => OpenTx = {t}
           \/ Abort(t) /\ Log("abort", t, "-", "-", "-")
      \/ \E t1 \in Tx, t2 \in Tx : NestedCommit(t1, t2)
+     \/ \E t1 \in Tx, k \in Key, v \in Val : NestedSet(t1, k, v)
      \/ \E u \in Tx \cup {DB}, k \in Key, v \in Val :
           \/ Set(u, k, v) /\ Log("set", u, k, v, "-")
           \/ Upd(u, k, v) /\ Log("upd", u, k, v, "-")
@@ -63,11 +97,10 @@ GNext ==
      \/ \E u \in Tx \cup {DB}, v \in Val, v2 \in Val : UpdEq(u, v, v2) /\ Log("updeq", u, "-", v, v2)
      \/ \E u \in Tx \cup {DB}, v \in Val : DelEq(u, v) /\ Log("deleq", u, "-", v, "-")
      \/ \E k \in Key, x \in Val \cup {Del} : Remote(k, x) /\ Log("remote", DB, k, x, "-")
-GInit == Init /\ hist = <<>> /\ nested = FALSE
+GNext == Step \/ EmitStep
+GInit == Init /\ hist = <<>> /\ nested = FALSE /\ emitted = FALSE /\ nd = 0 /\ nw = [t \in Tx |-> 0]
 GSpec == GInit /\ [][GNext]_gvars
-
-\* the pre-existing rows are the first record's concern: the harness reads them from `pre`
-Emit == Len(hist) # Depth \/ PrintT(<<"HIST", ToJson(hist)>>)
+\* the first record is always populate; its kv is the pre-existing table content
 \* the invariants of the design spec that relate the emitted expectations to the index
 GenSound == IndexEqualsScan /\ GetEqualsView
 ====
